@@ -834,7 +834,23 @@ func sharedCursor(r *vkit.R) {
 	}
 	r.Set("observation_shared_cursor_two_policies_alternating", map[string]interface{}{"policy0": ca, "policy1": cb,
 		"note": "non-deciding: per-policy skew when two policies with the same ready list alternate; per-endpoint load stays even"})
+	if judgeSharedCursor {
+		for p, c := range []map[string]int{ca, cb} {
+			for _, e := range st.Servers {
+				if c[e] != 50 {
+					r.Violation("C14/shared-cursor/per-policy-uneven",
+						fmt.Sprintf("two subset policies with the same ready list, picks strictly alternating between them: policy %d chose %s %d times out of 100 (expected 50); the cursor is shared between policies", p, e, c[e]),
+						map[string]interface{}{"state": st, "policy0": ca, "policy1": cb})
+					return
+				}
+			}
+		}
+	}
 }
+
+// judgeSharedCursor turns the observation above into a verdict (reading "consecutive picks" per policy even while another
+// policy with the same ready list is picking). Off: the property's anchors describe the cursor as "per ready set".
+const judgeSharedCursor = false
 
 func TestCheck(t *testing.T) {
 	vkit.Run(t, "C14", "exploration", func(r *vkit.R) {
